@@ -286,7 +286,12 @@ func genHistory(id int, seed int64, p GenParams) *History {
 		case r < p.WPublish+p.WDelete:
 			g.add(Op{Op: "delete", S: g.delSet()})
 		case r < p.WPublish+p.WDelete+p.WDeleteMulti:
-			g.add(Op{Op: "delete", S: g.delSet(), Multi: true})
+			dop := Op{Op: "delete", S: g.delSet(), Multi: true}
+			if rng.Intn(3) == 0 {
+				dop.Var = 1 + rng.Intn(3) // the backoff gives up at its Var-th call
+				// which offsets are gone then is not known to the generator: it keeps them as possibly live
+			}
+			g.add(dop)
 		case r < p.WPublish+p.WDelete+p.WDeleteMulti+p.WReopen:
 			g.add(Op{Op: "close"})
 			if p.IxProbe {
